@@ -1485,3 +1485,7 @@ Proof.
   split; [vm_compute; reflexivity|]. split; [vm_compute; reflexivity|]. split; [vm_compute; reflexivity|].
   intros m. destruct m; vm_compute; reflexivity.
 Qed.
+
+(* the literal git options read by the translator *)
+Lemma inputs_unpaired_true : inputs_unpaired = true.
+Proof. vm_compute. reflexivity. Qed.
